@@ -468,6 +468,11 @@ class CFG:
         if isinstance(s, ast.Assert):
             nid = self._simple(s, preds, "assert")
             return [nid]
+        if isinstance(s, ast.Expr) and isinstance(s.value, ast.Call) and norm(s.value.func) in ("sys.exit", "os._exit", "exit", "quit"):
+            nid = self._new("raise", s)  # SystemExit: does not fall through
+            self._link(preds, nid)
+            self._edge(nid, self._dispatch(), "exc")
+            return []
         # everything else: Expr, Assign, AugAssign, AnnAssign, Delete, Pass,
         # Import, Global, Nonlocal ...
         nid = self._simple(s, preds)
